@@ -186,6 +186,12 @@ pub(crate) fn equal_up_to_constness(ty1: &Type, ty2: &Type) -> bool {
     }
 }
 
+/// Hook for external verification harnesses: public view of `equal_up_to_constness`.
+#[cfg(feature = "oq3_verif")]
+pub fn verif_equal_up_to_constness(ty1: &Type, ty2: &Type) -> bool {
+    equal_up_to_constness(ty1, ty2)
+}
+
 // Are the base types of the scalars equal?
 // (That is modulo width and constness?)
 pub fn equal_base_type(ty1: &Type, ty2: &Type) -> bool {
